@@ -105,11 +105,11 @@ fn build(e: &Value) -> Option<Built> {
     let g = group(gs(e, "g"));
     let u = gi(e, "U") as f64;
     match gs(e, "shape") {
-        "square" | "kite" => {
-            let radial = if gs(e, "shape") == "square" {
-                vec![1., 1., 1., 1.]
-            } else {
-                vec![1., 0.5, 1., 0.5]
+        "square" | "kite" | "quad" => {
+            let radial = match gs(e, "shape") {
+                "square" => vec![1., 1., 1., 1.],
+                "kite" => vec![1., 0.5, 1., 0.5],
+                _ => vec![1., 0.5, 0.8, 0.3],
             };
             let st = PackedState::from_group(LineShape::from_radial(gs(e, "shape"), radial).ok()?, &g)
                 .ok()?;
@@ -524,6 +524,11 @@ pub fn pairs(input: &str, out: &str) {
                 &t1,
                 &t2,
             ),
+            "quad" => pair_answers(
+                &LineShape::from_radial("quad", vec![1., 0.5, 0.8, 0.3]).unwrap(),
+                &t1,
+                &t2,
+            ),
             "kite2" => pair_answers(
                 &LineShape::from_radial("kite2", vec![0.5, 1., 0.5, 1.]).unwrap(),
                 &t1,
@@ -822,10 +827,24 @@ fn rounded_items<S: Shape + serde::Serialize>(s: &S) -> Value {
     json!(out)
 }
 
-fn rigid(theta: f64, mirror: bool, tx: f64, ty: f64) -> Matrix3<f64> {
+/// rotation by theta followed by: 0 nothing, 1 the mirror x -> -x, 2 the mirror y -> -y
+fn rigid(theta: f64, mirror: u8, tx: f64, ty: f64) -> Matrix3<f64> {
     let (c, s) = (theta.cos(), theta.sin());
-    let sg = if mirror { -1. } else { 1. };
-    Matrix3::new(sg * c, -sg * s, tx, s, c, ty, 0., 0., 1.)
+    match mirror {
+        1 => Matrix3::new(-c, s, tx, s, c, ty, 0., 0., 1.),
+        2 => Matrix3::new(c, -s, tx, -s, -c, ty, 0., 0., 1.),
+        _ => Matrix3::new(c, -s, tx, s, c, ty, 0., 0., 1.),
+    }
+}
+
+/// orientations the optimiser's bounds make reachable exactly, and generic ones
+fn pick_angle(rng: &mut rand_pcg::Pcg64Mcg) -> f64 {
+    use rand::Rng;
+    match rng.gen_range(0, 6) {
+        0 => 0.,
+        1 => 2. * PI,
+        _ => rng.gen::<f64>() * 2. * PI,
+    }
 }
 
 fn record_pairs<S: Shape + Intersect + serde::Serialize>(
@@ -839,10 +858,10 @@ fn record_pairs<S: Shape + Intersect + serde::Serialize>(
     use rand::Rng;
     let r = shape.enclosing_radius();
     for _ in 0..count {
-        let t1 = rigid(rng.gen::<f64>() * 2. * PI, rng.gen::<bool>(), 0., 0.);
+        let t1 = rigid(pick_angle(rng), rng.gen_range(0, 3), 0., 0.);
         let dir = rng.gen::<f64>() * 2. * PI;
-        let th2 = rng.gen::<f64>() * 2. * PI;
-        let m2 = rng.gen::<bool>();
+        let th2 = pick_angle(rng);
+        let m2: u8 = rng.gen_range(0, 3);
         let at = |d: f64| rigid(th2, m2, d * dir.cos(), d * dir.sin());
         // where the implementation's answer flips along this direction
         let hit = |d: f64| {
@@ -901,12 +920,12 @@ pub fn pairs_obs(out: &str, thorough: bool, seed: u64) {
         let sh = LineShape::polygon(*n).unwrap();
         record_pairs(&format!("polygon{}", n), "poly", &sh, &mut rng, per, &mut lines);
     }
-    for rad in [vec![1., 0.6, 1., 0.6], vec![0.8, 1., 0.8, 1.], vec![1., 0.9, 0.8, 0.9, 1., 0.9]].iter() {
+    for rad in [vec![1., 0.6, 1., 0.6], vec![0.8, 1., 0.8, 1.], vec![1., 0.9, 0.8, 0.9, 1., 0.9], vec![1., 0.5, 0.8, 0.3]].iter() {
         let sh = LineShape::from_radial("radial", rad.clone()).unwrap();
         record_pairs(&format!("radial{:?}", rad), "poly", &sh, &mut rng, per, &mut lines);
     }
     record_pairs("circle", "discs", &MolecularShape2::circle(), &mut rng, per, &mut lines);
-    for (r, a, d) in [(0.637556, 120., 1.), (0.5, 180., 1.), (0.7, 90., 1.2), (1., 60., 0.8), (0.3, 150., 2.)].iter() {
+    for (r, a, d) in [(0.637556, 120., 1.), (0.5, 180., 1.), (0.7, 90., 1.2), (1., 60., 0.8), (0.3, 150., 2.), (1.4, 180., 1.), (1.3, 110., 1.5), (0.2, 120., 1.)].iter() {
         let sh = MolecularShape2::from_trimer(*r, *a, *d);
         record_pairs(&format!("trimer({},{},{})", r, a, d), "discs", &sh, &mut rng, per, &mut lines);
     }
